@@ -69,6 +69,7 @@ pub fn emit(seed: u64, n_streams: usize, stream_len: usize, n_raw: usize) {
         };
         let dv = g0.clone().f64_minmax(dmin, dmax);
         println!("B {} {:?} {:?} {:?} {:?} {:?} {:?} {:?}", raw, f, fmin, fmax, fv, dmin, dmax, dv);
+        println!("D ({}%N, {}, {}, {})", raw, crate::util::f(dmin), crate::util::f(dmax), crate::util::f(dv));
     }
 }
 
